@@ -87,7 +87,9 @@ StuckReq(S, p) == ReqSink(S, p) = "-"
 \* buffers that can never leave: those of a upipe_buffer behind a head larger than max_size, and those of
 \* every holder upstream of it (its pump stays blocked by the stuck holder)
 StuckHead(S, p) == LET P == S.p[p] IN
-    \/ P.ex /\ P.k = "buffer" /\ P.q # <<>> /\ IsBuf(Head(P.q)) /\ Len(Head(P.q)[2].pl) > P.a
+    \* (nb = 0: nothing has been accepted yet, so no pump exists; raising max_size afterwards does not look at
+    \* what is held - only the next input would)
+    \/ P.ex /\ P.k = "buffer" /\ P.q # <<>> /\ IsBuf(Head(P.q)) /\ (Len(Head(P.q)[2].pl) > P.a \/ P.nb = 0)
     \* a upipe_tblk whose buffer manager request reaches no sink (no output, or a downstream upipe_tblk
     \* keeps it for its probe) is never answered in this environment
     \/ P.ex /\ P.k = "tblk" /\ P.q # <<>> /\ ~P.um /\ StuckReq(S, p)
@@ -134,7 +136,11 @@ Reroute(S) ==
                                       THEN <<PN[i]>> ELSE <<>>) \o G(i + 1)
                     IN G(1)
     IN [S EXCEPT !.s = TLCEval([x \in SinkNames |->
-            [S.s[x] EXCEPT !.rq = SelectSeq(@, LAMBDA y : S.p[y].ex /\ EndSink(S, y) = x) \o Moved(x)]])]
+            [S.s[x] EXCEPT !.rq = SelectSeq(@, LAMBDA y : S.p[y].ex /\ EndSink(S, y) = x) \o Moved(x)]]),
+                 \* a clock request that now ends at a pipe without output is answered by that pipe's probe
+                 !.p = TLCEval([x \in PipeNames |->
+                        IF PendingReq(S, x) /\ S.p[x].k = "time_limit" /\ EndSink(S, x) \notin SinkNames
+                        THEN [S.p[x] EXCEPT !.uc = TRUE] ELSE S.p[x]])]
 
 \* every control command makes upipe_disblo allocate its pump and upipe_time_limit ask for a clock:
 \* the request is answered at once by the probe when the pipe has no output, else it waits at the sink
@@ -146,7 +152,8 @@ Ctl(S, p) ==
          ELSE LET t == EndSink(S, p) IN
               IF t \in SinkNames
               THEN [S EXCEPT !.s[t].rq = Append(SelectSeq(@, LAMBDA y : y # p), p)]
-              ELSE S
+              \* the chain ends at a pipe without output (or at upipe_null): that pipe's probe answers at once
+              ELSE SetP(S, p, "uc", TRUE)
     ELSE S
 
 \* ---- the data path --------------------------------------------------------------
